@@ -1038,17 +1038,22 @@ pub fn run_torn_state_file(which : &str) -> Vec<Violation>
     let rules = "out\n:\nin\n:\nmycat\nin\nout\n:\n";
     let mut v = vec![];
     let params = || BuildParams::from_all(".ruler".to_string(), vec!["build.rules".to_string()], None, None);
-    for torn in [0usize, 5].iter()
+    /*  the killed build is either the SECOND one (every state file already exists and is replaced) or the very FIRST
+        one (every state file is written for the first time) */
+    for (torn, first) in [(0usize, false), (5, false), (0, true), (5, true)].iter()
     {
         for kill_after in 0..40u32
         {
             let mut sys = FakeSystem::new(100);
             write_str_to_file(&mut sys, "build.rules", rules).unwrap();
             sys.time_passes(1_000_000);
-            write_str_to_file(&mut sys, "in", "one\n").unwrap();
-            sys.time_passes(1_000_000);
-            if let Err(e) = build(sys.clone(), &mut EmptyPrinter::new(), params()) { v.push(Violation { properties : vec!["C11"], role : "replay: first build failed".into(), what : format!("{}", e) }); return v; }
-            sys.time_passes(1_000_000);
+            if !*first
+            {
+                write_str_to_file(&mut sys, "in", "one\n").unwrap();
+                sys.time_passes(1_000_000);
+                if let Err(e) = build(sys.clone(), &mut EmptyPrinter::new(), params()) { v.push(Violation { properties : vec!["C11"], role : "replay: first build failed".into(), what : format!("{}", e) }); return v; }
+                sys.time_passes(1_000_000);
+            }
             write_str_to_file(&mut sys, "in", "two\n").unwrap();
             sys.time_passes(1_000_000);
             /*  second build, killed after `kill_after` mutations */
@@ -1069,7 +1074,7 @@ pub fn run_torn_state_file(which : &str) -> Vec<Violation>
                 if file == which || which == "any" || file == "state"
                 {
                     v.push(Violation { properties : vec!["C11"], role : format!("{} file truncated or half written by a kill makes the next build fail", file),
-                        what : format!("second build killed after {} mutations (last completed: {}; {} bytes of the interrupted write got through); the next build {}", kill_after, last, torn, msg) });
+                        what : format!("{} build killed after {} mutations (last completed: {}; {} bytes of the interrupted write got through); the next build {}", if *first { "first" } else { "second" }, kill_after, last, torn, msg) });
                     return v;
                 }
             }
